@@ -327,15 +327,19 @@ func (fr *frame) applyContract(x ssa.Instruction, sig *types.Signature, fc *Func
 				break
 			}
 			t := a.T
-			if t.Sort == SSlice || t.Sort == SIface {
+			immut := fc.Opts["immutable-args"] != ""
+			if (t.Sort == SSlice || t.Sort == SIface) && !immut {
 				okArgs = false // mutable content: not a function of the header
 				break
 			}
-			if t.Sort == SInt {
+			if t.Sort == SInt && !immut {
 				if _, isPtr := types.Unalias(a.Ty).Underlying().(*types.Pointer); isPtr {
 					okArgs = false
 					break
 				}
+			}
+			if immut {
+				vc.note("unchecked assumption: the objects passed to %s are immutable (rule fields are never written after construction)", cname)
 			}
 			as = append(as, t)
 			ss = append(ss, t.Sort)
@@ -395,6 +399,9 @@ func (fr *frame) applyContract(x ssa.Instruction, sig *types.Signature, fc *Func
 		if err != nil {
 			vc.errorf("%s:%d: ensures of %s at call in %s: %v", cl.File, cl.Line, cname, relName(fr.fn), err)
 			continue
+		}
+		if cl.Assumed {
+			vc.note("unchecked assumption: postcondition of %s taken on trust: %s", cname, cl.Src)
 		}
 		vc.assume(st.reach, t)
 	}
